@@ -22,6 +22,7 @@ type Env struct {
 	noLocals bool
 	entry    Heap                // heap on entry of the enclosing loop (atentry)
 	entryPhi map[*ssa.Phi]Val    // loop-carried variables on entry of the enclosing loop
+	qdepth   int                 // quantifier nesting depth (bound names are made unique per depth)
 }
 
 func (g *Gen) newEnv(h, old Heap, b *ssa.BasicBlock) *Env {
@@ -142,10 +143,14 @@ func (e *Env) eval(x Expr) (Val, error) {
 		return e.binary(x)
 	case *EQuant:
 		n := e.sub()
+		n.qdepth = e.qdepth + 1
 		var decl []string
 		for _, v := range x.Vars {
 			so := g.specSort(v.Type)
 			name := qsym("q!" + v.Name)
+			if e.qdepth > 0 {
+				name = qsym(fmt.Sprintf("q!%s!%d", v.Name, e.qdepth))
+			}
 			decl = append(decl, fmt.Sprintf("(%s %s)", name, so))
 			var ty types.Type
 			switch v.Type {
@@ -664,7 +669,11 @@ func (e *Env) call(x *ECall) (Val, error) {
 		if err := need(1); err != nil {
 			return Val{}, err
 		}
-		return Val{T: sel(g.hget(e.heap, g.allocComp()), args[0].T), S: SBool}, nil
+		r := args[0].T
+		if args[0].S == SSlice {
+			r = sx("s-arr", r)
+		}
+		return Val{T: sel(g.hget(e.heap, g.allocComp()), r), S: SBool}, nil
 	case "dom":
 		if err := need(2); err != nil {
 			return Val{}, err
